@@ -1,0 +1,27 @@
+//go:build verif
+
+package executor
+
+import (
+	"time"
+
+	"github.com/alpacahq/marketstore/v4/executor/wal"
+)
+
+// Add-only verification helper (properties C14, C16, C17), compiled only with -tags verif.
+// No behaviour is changed: nothing here is called by marketstore itself.
+
+// VerifNewTransactionPipe is NewTransactionPipe with a caller-chosen channel depth.  The harness
+// builds one real instance per generated case; the production depth (WriteChannelCommandDepth = 1e6)
+// costs about 0.3 s of allocation per instance.
+func VerifNewTransactionPipe(depth int) *TransactionPipe {
+	return &TransactionPipe{
+		tgID:         time.Now().UTC().UnixNano(),
+		writeChannel: make(chan *wal.WriteCommand, depth),
+		flushChannel: make(chan chan struct{}, depth),
+	}
+}
+
+// VerifQueuedWrites returns the number of write commands waiting in the pipe (C14: rows of earlier
+// buckets that stay queued when a request is rejected).
+func VerifQueuedWrites(wf *WALFileType) int { return len(wf.txnPipe.writeChannel) }
